@@ -76,6 +76,17 @@ Theorem C06_rounded_efficiency : forall (rnd : Q -> Q) (eps : Q), 0 <= eps -> (f
         - sumQ (fun t : kpoint => hd_u (fst (fst t)) (snd (fst t)) (snd t) - snd (fst t)) ts / qn (length ts))
   <= (pw eps (3 * n + length ts + 1) - 1) * (sumQ (fun t : kpoint => tv (fst (fst t)) (snd (fst t)) (snd t)) ts / qn (length ts)).
 Proof. exact rkernel_efficiency. Qed.
+(* the same in closed form: (1 + eps)^k - 1 <= gamma_k = k eps / (1 - k eps) whenever k eps < 1 -- the threshold the C06 check
+   evaluates with eps = 2^-53 (k = 3n + T + 1: about 2.2e-11 at 65 536 rows x 512 points) *)
+Theorem C06_gamma : forall eps k, 0 <= eps -> qn k * eps < 1 -> pw eps k - 1 <= gamma eps k.
+Proof. exact pw_le_gamma. Qed.
+Theorem C06_rounded_efficiency_gamma : forall (rnd : Q -> Q) (eps : Q), 0 <= eps -> (forall x, Qabs (rnd x - x) <= eps * Qabs x) ->
+  forall n (ts : list kpoint), (0 < n)%nat -> ts <> [] -> (forall t, In t ts -> Permutation (snd t) (seq 0 n)) ->
+  qn (3 * n + length ts + 1) * eps < 1 ->
+  Qabs (sumQ (fun x => x) (rkernel_t rnd n ts)
+        - sumQ (fun t : kpoint => hd_u (fst (fst t)) (snd (fst t)) (snd t) - snd (fst t)) ts / qn (length ts))
+  <= gamma eps (3 * n + length ts + 1) * (sumQ (fun t : kpoint => tv (fst (fst t)) (snd (fst t)) (snd t)) ts / qn (length ts)).
+Proof. exact rkernel_efficiency_gamma. Qed.
 (* the rounding-aware recurrence with rnd = identity is the exact one *)
 Theorem C06_rounded_model_is_exact_without_rounding : forall u null l pos, Forall2 Qeq (rcurs (fun x => x) u null pos l) (curs u null pos l).
 Proof. exact rcurs_id. Qed.
@@ -102,4 +113,6 @@ Print Assumptions C06_add_efficiency.
 Print Assumptions C06_mc_efficiency.
 Print Assumptions C06_rounded_score.
 Print Assumptions C06_rounded_efficiency.
+Print Assumptions C06_gamma.
+Print Assumptions C06_rounded_efficiency_gamma.
 Print Assumptions C06_rounded_model_is_exact_without_rounding.
